@@ -735,6 +735,15 @@ def run_db(ctx, exe, dbname, nruns, seed_rng, stats, cov, sweep=False):
     return db, dblines, results
 
 
+def _first_times(ctx, key, limit=3):
+    """a finding is routed at most `limit` times per run (an unlisted key would otherwise write one replay per state)"""
+    seen = getattr(ctx, "_finding_calls", None)
+    if seen is None:
+        seen = ctx._finding_calls = {}
+    seen[key] = seen.get(key, 0) + 1
+    return seen[key] <= limit
+
+
 def handle_findings(ctx, exe, dbname, db, dblines, results):
     n_or, n_tie = 0, 0
     for k, tx, findings in sorted(results, key=lambda x: x[0]):
@@ -746,13 +755,13 @@ def handle_findings(ctx, exe, dbname, db, dblines, results):
                 continue
             i, di, orc, tie, found, iso_found = f
             text = tx[i]
-            if iso_found:
+            if iso_found and _first_times(ctx, ISO_KEY):
                 ctx.finding(ISO_KEY,
                             "ISOTOPES database: add_isotopes() replaces total H / total O by the major-isotope moles before the "
                             "initial solution is punched: " + f"{dbname}: {iso_found[0][2]}",
                             {"db": dbname, "input": ISO_REPLAY if dbname == "iso.dat" else text, "dump": di,
                              "failures": [list(map(str, x)) for x in iso_found[:4]]})
-            if found:
+            if found and _first_times(ctx, STALE_KEY):
                 ctx.finding(STALE_KEY,
                             "model() accepted a state whose molalities were computed before the last gammas() call (end of "
                             "revise_guesses): " + f"{dbname}: {found[0][1]}: {found[0][2]}",
